@@ -17,6 +17,11 @@ package zzverif
 //                                        xs = the next items (up to its capacity); afterwards rem == 0
 //                                        iff the zero-length block ending the stream was consumed
 //
+// With gen.bulk set (zz_c05_bulk.go) the plans are structural (a record is the sequence of its fields' plans, read from
+// the emitted serializer bodies) and the combinators the runtime implements with a bulk path (WriteVector,
+// ReadBlocksIntoVector, Read/WriteVector / Array / NDArray inside serializer expressions) move sizeof(T) bytes per
+// element when T is trivially serializable, whatever W / R is.
+//
 // Everything else in a body must be one of the recognised conversion / bookkeeping forms; an
 // unrecognised form is reported (obligation only-known-statement-forms), never skipped.
 
@@ -25,7 +30,7 @@ import (
 )
 
 type cstmt struct {
-	kind  string // "simple", "if", "for", "switch"
+	kind  string // "simple", "if", "for", "switch", "try" (body, els = the catch (...) handler)
 	text  string // simple: the statement without ';' — otherwise the header expression
 	body  []*cstmt
 	els   []*cstmt
@@ -116,6 +121,14 @@ func (p *cparser) stmts(inSwitch bool) []*cstmt {
 					break
 				}
 			}
+			p.expect("}")
+			out = append(out, s)
+		case l == "try {":
+			// try { body } catch (...) { els }
+			s := &cstmt{kind: "try"}
+			s.body = p.stmts(false)
+			p.expect("} catch (...) {")
+			s.els = p.stmts(false)
 			p.expect("}")
 			out = append(out, s)
 		case strings.HasSuffix(l, ";"):
@@ -278,7 +291,23 @@ func (r *protoRun) planOf(fn, ty *vnode) string {
 	if r.write {
 		verb = "Write"
 	}
+	if r.g.bulk != nil {
+		return r.g.bulk.denote(fn, ty, verb)
+	}
 	return r.g.cppPlan(fn, ty, verb)
+}
+
+// itemPlan: the plan of one item moved by the block combinator comb<T, F> (fn). With gen.bulk set, a combinator that the
+// runtime implements with a bulk path moves sizeof(T) bytes per item when T is trivially serializable and calls F otherwise.
+func (r *protoRun) itemPlan(comb string, fn *vnode) string {
+	if r.g.bulk != nil {
+		verb := "Read"
+		if r.write {
+			verb = "Write"
+		}
+		return r.g.bulk.elem(verb+comb, fn.kids[0], fn.kids[1], verb)
+	}
+	return r.planOf(fn.kids[1], fn.kids[0])
 }
 
 func (r *protoRun) exec(ss []*cstmt) int {
@@ -479,10 +508,10 @@ func (r *protoRun) call(t string) int {
 	case fn.head == pre+"WriteInteger" && fn.open == "" && args == "0U" && r.write:
 		r.toks = append(r.toks, ptok{kind: "count", n: 0})
 	case fn.head == pre+"WriteBlock" && len(fn.kids) == 2 && r.write && isIdent(args):
-		r.toks = append(r.toks, ptok{kind: "count", n: 1}, ptok{kind: "items", n: 1, plan: r.planOf(fn.kids[1], fn.kids[0]), v: args})
+		r.toks = append(r.toks, ptok{kind: "count", n: 1}, ptok{kind: "items", n: 1, plan: r.itemPlan("Block", fn), v: args})
 	case fn.head == pre+"WriteVector" && len(fn.kids) == 2 && r.write && r.stream && isIdent(args):
 		n := r.lens[args]
-		r.toks = append(r.toks, ptok{kind: "count", n: n}, ptok{kind: "items", n: n, plan: r.planOf(fn.kids[1], fn.kids[0]), v: args})
+		r.toks = append(r.toks, ptok{kind: "count", n: n}, ptok{kind: "items", n: n, plan: r.itemPlan("Vector", fn), v: args})
 	case fn.head == pre+"ReadBlock" && len(fn.kids) == 2 && !r.write && assignOK && strings.HasPrefix(args, "current_block_remaining_, ") && isIdent(args[len("current_block_remaining_, "):]):
 		x := args[len("current_block_remaining_, "):]
 		got := true
@@ -494,7 +523,7 @@ func (r *protoRun) call(t string) int {
 			}
 		}
 		if got {
-			r.toks = append(r.toks, ptok{kind: "items", n: 1, plan: r.planOf(fn.kids[1], fn.kids[0]), v: x})
+			r.toks = append(r.toks, ptok{kind: "items", n: 1, plan: r.itemPlan("Block", fn), v: x})
 			r.rem--
 			r.fresh[x] = false
 		}
@@ -508,7 +537,7 @@ func (r *protoRun) call(t string) int {
 		r.lens[x] = n
 		r.fresh[x] = false
 		r.batchRead = true
-		r.toks = append(r.toks, ptok{kind: "items", n: n, plan: r.planOf(fn.kids[1], fn.kids[0]), v: x})
+		r.toks = append(r.toks, ptok{kind: "items", n: n, plan: r.itemPlan("BlocksIntoVector", fn), v: x})
 	case !assignOK && isIdent(args) && !(r.stream && (strings.HasPrefix(fn.head, pre+"WriteBlock") || strings.HasPrefix(fn.head, pre+"ReadBlock"))):
 		ty, ok := parseExpr(r.types[args])
 		if !ok {
